@@ -187,6 +187,10 @@ func (msg RtmpMsg) IsHevcKeyNalu() bool {
 		return false
 	}
 
+	if len(msg.Payload) < 1 {
+		return false
+	}
+
 	isExtHeader := msg.Payload[0] & 0x80
 	if isExtHeader != 0 {
 		frameType := msg.Payload[0] >> 4 & 0x07
@@ -194,7 +198,7 @@ func (msg RtmpMsg) IsHevcKeyNalu() bool {
 		return frameType == RtmpExFrameTypeKeyFrame && packetType != RtmpExPacketTypeSequenceStart
 	}
 
-	return msg.Payload[0] == RtmpHevcKeyFrame && msg.Payload[1] == RtmpHevcPacketTypeNalu
+	return len(msg.Payload) >= 2 && msg.Payload[0] == RtmpHevcKeyFrame && msg.Payload[1] == RtmpHevcPacketTypeNalu
 }
 
 func (msg RtmpMsg) IsEnchanedHevcNalu() bool {
